@@ -274,14 +274,15 @@ func init() {
 			forms, structure, _ := scopeAlphabets()
 			one := otherVariants[:1]
 			sp := []*core.Space{
-				c11Space(scopeSpaceDef{"forms-1node", forms, 1, 1, otherVariants, 1, false}),
-				c11Space(scopeSpaceDef{"structure<=2-all-second-files", structure, 1, 2, otherVariants, 1, false}),
-				c11Space(scopeSpaceDef{"structure<=2-on-one-line", structure, 1, 2, one, 1, true}),
+				c11Space(scopeSpaceDef{"forms-1node", forms, 1, 1, otherVariants, 1, false, nil}),
+				c11Space(scopeSpaceDef{name: "sibling-blocks-on-one-line", others: otherVariants[:1], fixed: siblingBlockPrograms()}),
+				c11Space(scopeSpaceDef{"structure<=2-all-second-files", structure, 1, 2, otherVariants, 1, false, nil}),
+				c11Space(scopeSpaceDef{"structure<=2-on-one-line", structure, 1, 2, one, 1, true, nil}),
 			}
 			if tier == "thorough" {
-				sp = append(sp, c11Space(scopeSpaceDef{"structure-3nodes", structure, 3, 3, one, 1, false}))
+				sp = append(sp, c11Space(scopeSpaceDef{"structure-3nodes", structure, 3, 3, one, 1, false, nil}))
 			} else {
-				sp = append(sp, c11Space(scopeSpaceDef{"structure-3nodes-first-60000", structure, 3, 3, one, 60000, false}))
+				sp = append(sp, c11Space(scopeSpaceDef{"structure-3nodes-first-60000", structure, 3, 3, one, 60000, false, nil}))
 			}
 			return sp
 		},
